@@ -199,6 +199,8 @@ class TmplGen:
                 name = r.choice(["tap", "touch-start", "customEv"])
                 v = r.choice([("static", "onTap"), ("expr", ("data", "f")), ("expr", self.expr(scope_names, 1)), None])
             elif fam == "model:":
+                # (names that look like legacy event attributes once camel-cased — `on…`, `bind…`, `catch…` — are NOT generated: where the element has no such
+                # property the runtime's compatibility path turns the attribute into an event listener, which this reference does not describe: round 12, §14)
                 name = r.choice(["value", "checked-v"])
                 v = ("expr", r.choice([("data", "a"), ("smember", ("data", "o"), "p"), ("dmember", ("data", "l"), ("data", "n")),
                                        self.expr(scope_names, 1)]))
@@ -327,6 +329,11 @@ class TmplGen:
         if c == 12:
             # a `<slot>` may carry `slot:` value references of its own: they scope over the slot element only (it has no children)
             own = [("slot:" + nm_, al) for (_, nm_, al) in self.slot_refs()]
+            # properties handed to the slot: with a value, and written without one (the empty string, not `true` as on an element: round 12, C04-16)
+            if r.chance(1, 3):
+                own.append(("selected", None))
+            if r.chance(1, 3):
+                own.append(("row-id", r.choice([("static", "r1"), ("expr", ("data", "a"))])))
             return ("slot", r.choice([None, ("static", "s1"), ("expr", ("data", "n"))]), own)
         if c == 13:
             return ("comment", r.choice([" c ", "x--y", "<view>", ""]))
